@@ -42,7 +42,7 @@ func ProxyAddr(kind string) common.Address {
 }
 
 // ProxyCode: calldata = target(20) || input.  Calls target with input through the given opcode and
-// returns success(32) || returndata.
+// (CALL / CALLCODE forward the transaction's value) and returns success(32) || returndata.
 func ProxyCode(kind string) []byte {
 	op := proxyOp[kind]
 	a := asm.New()
@@ -50,7 +50,7 @@ func ProxyCode(kind string) []byte {
 	a.Op(asm.DUP1, asm.PUSH1, 20, asm.PUSH1, 0, asm.CALLDATACOPY)     // mem[0..n) = calldata[20..]
 	a.Op(asm.PUSH1, 0, asm.PUSH1, 0, 0x82 /*DUP3*/, asm.PUSH1, 0)     // outSize outOff inSize inOff
 	if op == asm.CALL || op == asm.CALLCODE {
-		a.Op(asm.PUSH1, 0) // value
+		a.Op(asm.CALLVALUE) // the value sent along with the probe is forwarded
 	}
 	a.Op(asm.PUSH1, 0, asm.CALLDATALOAD, asm.PUSH1, 96, 0x1c /*SHR*/) // target
 	a.Op(asm.GAS, op)
@@ -143,8 +143,8 @@ func request(target common.Address, input []byte, via string) (common.Address, [
 
 const probeGas = 200000
 
-func (p *Prober) legacy(nonce uint64, to common.Address, data []byte) *ethtypes.LegacyTx {
-	return &ethtypes.LegacyTx{Nonce: nonce, GasPrice: p.gasPrice(), Gas: probeGas, To: &to, Value: big.NewInt(0), Data: data}
+func (p *Prober) legacy(nonce uint64, to common.Address, data []byte, value int64) *ethtypes.LegacyTx {
+	return &ethtypes.LegacyTx{Nonce: nonce, GasPrice: p.gasPrice(), Gas: probeGas, To: &to, Value: big.NewInt(value), Data: data}
 }
 
 func ethResponse(data []byte) (*evmtypes.MsgEthereumTxResponse, error) {
@@ -173,6 +173,7 @@ type Req struct {
 	Target common.Address
 	Input  []byte
 	Via    string
+	Value  int64 // wei sent with the top-level message
 }
 
 // Deliver executes all requests as real transactions of one block (at most maxPerBlock per block).
@@ -191,7 +192,7 @@ func (p *Prober) Deliver(reqs []Req, n0 uint64) []Raw {
 		var txs [][]byte
 		for i := base; i < end; i++ {
 			to, data := request(reqs[i].Target, reqs[i].Input, reqs[i].Via)
-			txs = append(txs, p.C.EthTx(p.From, p.legacy(nonce+uint64(i-base), to, data)))
+			txs = append(txs, p.C.EthTx(p.From, p.legacy(nonce+uint64(i-base), to, data, reqs[i].Value)))
 		}
 		obs.Drain()
 		bo := p.C.Deliver(txs...)
@@ -230,7 +231,7 @@ func (p *Prober) Deliver(reqs []Req, n0 uint64) []Raw {
 func (p *Prober) Check(q Req, nonce uint64) Raw {
 	var r Raw
 	to, data := request(q.Target, q.Input, q.Via)
-	tx := p.C.EthTx(p.From, p.legacy(nonce, to, data))
+	tx := p.C.EthTx(p.From, p.legacy(nonce, to, data, q.Value))
 	obs.Drain()
 	res, err := p.C.App.CheckTx(&abci.RequestCheckTx{Tx: tx, Type: abci.CheckTxType_New})
 	execs := obs.Drain()
@@ -251,7 +252,7 @@ func (p *Prober) Check(q Req, nonce uint64) Raw {
 func (p *Prober) Simulate(q Req, nonce uint64) Raw {
 	var r Raw
 	to, data := request(q.Target, q.Input, q.Via)
-	tx := p.C.EthTx(p.From, p.legacy(nonce, to, data))
+	tx := p.C.EthTx(p.From, p.legacy(nonce, to, data, q.Value))
 	obs.Drain()
 	_, res, err := p.C.App.Simulate(tx)
 	execs := obs.Drain()
@@ -277,10 +278,11 @@ func (p *Prober) Simulate(q Req, nonce uint64) Raw {
 	return r
 }
 
-func callArgs(from common.Address, to common.Address, data []byte) []byte {
+func callArgs(from common.Address, to common.Address, data []byte, value int64) []byte {
 	g := hexutil.Uint64(probeGas)
 	d := hexutil.Bytes(data)
-	bz, err := json.Marshal(evmtypes.TransactionArgs{From: &from, To: &to, Gas: &g, Data: &d})
+	v := (*hexutil.Big)(big.NewInt(value))
+	bz, err := json.Marshal(evmtypes.TransactionArgs{From: &from, To: &to, Gas: &g, Data: &d, Value: v})
 	if err != nil {
 		panic(err)
 	}
@@ -292,7 +294,7 @@ func (p *Prober) EthCall(q Req) Raw {
 	var r Raw
 	to, data := request(q.Target, q.Input, q.Via)
 	obs.Drain()
-	rsp, err := p.C.App.EvmKeeper.EthCall(p.C.Ctx(), &evmtypes.EthCallRequest{Args: callArgs(p.From.Addr, to, data), GasCap: 25_000_000})
+	rsp, err := p.C.App.EvmKeeper.EthCall(p.C.Ctx(), &evmtypes.EthCallRequest{Args: callArgs(p.From.Addr, to, data, q.Value), GasCap: 25_000_000})
 	execs := obs.Drain()
 	if err != nil {
 		r.Detail = "eth_call error: " + trunc(err.Error(), 160)
@@ -309,7 +311,7 @@ func (p *Prober) Estimate(q Req) Raw {
 	var r Raw
 	to, data := request(q.Target, q.Input, q.Via)
 	obs.Drain()
-	rsp, err := p.C.App.EvmKeeper.EstimateGas(p.C.Ctx(), &evmtypes.EthCallRequest{Args: callArgs(p.From.Addr, to, data), GasCap: 25_000_000})
+	rsp, err := p.C.App.EvmKeeper.EstimateGas(p.C.Ctx(), &evmtypes.EthCallRequest{Args: callArgs(p.From.Addr, to, data, q.Value), GasCap: 25_000_000})
 	execs := obs.Drain()
 	r.Admit = true
 	if err != nil {
@@ -326,7 +328,7 @@ func (p *Prober) Estimate(q Req) Raw {
 func (p *Prober) Trace(q Req, nonce uint64) Raw {
 	var r Raw
 	to, data := request(q.Target, q.Input, q.Via)
-	stx := chain.SignEth(p.From, p.legacy(nonce, to, data), chain.EIP155)
+	stx := chain.SignEth(p.From, p.legacy(nonce, to, data, q.Value), chain.EIP155)
 	msg := chain.EthMsg(stx, p.From.Addr)
 	obs.Drain()
 	rsp, err := p.C.App.EvmKeeper.TraceTx(p.C.Ctx(), &evmtypes.QueryTraceTxRequest{Msg: msg, BlockNumber: p.C.Height, BlockTime: chain.BlockTime(p.C.Height),
